@@ -566,17 +566,11 @@ PROFILES = {
 
 
 def make_case(seed, idx, profile="core", times=12):
-    for attempt in range(20):
-        r = Rng((seed << 20) ^ idx ^ (coregen.hash_name("stage:" + profile) << 40) ^ (attempt << 52))
-        g = SGen(r, dict(PROFILES[profile], call_styles=False, defaults=False))
-        sp = g.gen_sprog()
-        try:
-            # listed finding G3 (a closure bound in an inner block snapshots a variable its function still assigns)
-            if coregen.stale_capture_risk(manual(sp)):
-                continue
-        except Stuck:
-            pass
-        break
+    # (former finding G3 — a closure bound in an inner block snapshots a variable its function still assigns — is repaired
+    # (UPV-2): members of its class `coregen.stale_capture_risk` are no longer rejected)
+    r = Rng((seed << 20) ^ idx ^ (coregen.hash_name("stage:" + profile) << 40))
+    g = SGen(r, dict(PROFILES[profile], call_styles=False, defaults=False))
+    sp = g.gen_sprog()
     nin = len(sp.prog.dsp.params)
     inputs = [[r.pick([0.0, 1.0, -1.0, 0.5, 2.0, 3.25, -0.75, 100.0]) + (t if r.chance(1, 2) else 0) for _ in range(nin)]
               for t in range(times)]
